@@ -10,6 +10,7 @@
 
 namespace hx {
 inline std::string d(double x) {
+    if (x == 0.0) x = 0.0;   // canonical zero: the sign of zero carries no information for any property
     uint64_t u; std::memcpy(&u, &x, 8);
     char buf[20]; std::snprintf(buf, sizeof buf, "%016llx", (unsigned long long)u);
     return std::string(buf);
